@@ -454,6 +454,8 @@ static void handle(const verif::Tokens& t, std::ostream& o)
     else if(b == 1) run_sparse_script<SparseVectorBlocked<Q, Index, 1>, 1>(c, o);
     else if(b == 2) run_sparse_script<SparseVectorBlocked<Q, Index, 2>, 2>(c, o);
     else if(b == 3) run_sparse_script<SparseVectorBlocked<Q, Index, 3>, 3>(c, o);
+    else if(b == 32) run_sparse_script<SparseVector<Q, unsigned int>, 0>(c, o);                 // 32-bit index type
+    else if(b == 322) run_sparse_script<SparseVectorBlocked<Q, unsigned int, 2>, 2>(c, o);      // 32-bit index type, blocks of 2
     else o << "BAD-OP";
     return;
   }
